@@ -34,7 +34,7 @@ ASSUMPTIONS = [
     "h is always followed by m, re, a painting operator or n; cs/CS is always followed by the matching sc/SC before painting",
     "a quadrilateral closed by returning to the start without h may be classified rectangle or curve",
 ]
-PROBES = ["earlier page ends inside a path", "colour space from resources", "undefined colour space name", "two documents in sequence", "polyline revisits a vertex", "painted path without moveto", "q nesting beyond 28", "sc in current colour space", "open four-segment polyline", "rect via re", "rect via mlllh", "rect reversed orientation", "quadrilateral not axis-aligned after CTM", "line ml", "line mlh", "curve with c/v/y", "several subpaths in one path", "path ended by n", "lone moveto", "q/Q nesting >= 3", "unbalanced Q", "colour space switch inside q/Q", "dash pattern", "close-and-paint operator", "split into >1 streams"]
+PROBES = ["shapes through the layout analysis", "earlier page ends inside a path", "colour space from resources", "undefined colour space name", "two documents in sequence", "polyline revisits a vertex", "painted path without moveto", "q nesting beyond 28", "sc in current colour space", "open four-segment polyline", "rect via re", "rect via mlllh", "rect reversed orientation", "quadrilateral not axis-aligned after CTM", "line ml", "line mlh", "curve with c/v/y", "several subpaths in one path", "path ended by n", "lone moveto", "q/Q nesting >= 3", "unbalanced Q", "colour space switch inside q/Q", "dash pattern", "close-and-paint operator", "split into >1 streams"]
 TIERS = {
     "quick": {"batches": 16, "runs": 1200, "budget_s": 90},
     "thorough": {"batches": 128, "runs": 8000, "budget_s": 900},
@@ -285,10 +285,12 @@ def gen_program(t, ctx, csres=None):
     return prog
 
 
-def build_document(t, pieces, csres=None, prelude=None):
+def build_document(t, pieces, csres=None, prelude=None, with_font=False):
     """prelude: content of an extra first page (same resources) that the same interpreter runs before the page under test."""
     objects = {1: {b"Type": Name(b"Catalog"), b"Pages": Ref(2, 0)}, 2: {b"Type": Name(b"Pages"), b"Kids": [Ref(3, 0)], b"Count": 1}}
     resources = {}
+    if with_font:
+        resources[b"Font"] = {b"F1": docs.std_font(b"Helvetica")}
     if csres:
         csd = {}
         for j, (nm, (kind, n)) in enumerate(sorted(csres.items())):
@@ -321,11 +323,11 @@ def shapes_of(item, out):
     return out
 
 
-def interpret(data, pol):
+def interpret(data, pol, laparams=None):
     seams.CHUNK.policy = pol
     try:
         rm = PDFResourceManager()
-        dev = PDFPageAggregator(rm, laparams=None)
+        dev = PDFPageAggregator(rm, laparams=laparams)
         interp = PDFPageInterpreter(rm, dev)
         pages = list(PDFPage.get_pages(BytesIO(data)))
         for page in pages:  # (one interpreter for all pages; the page under test is the last one)
@@ -418,6 +420,26 @@ def compare(expected, shapes, cfg, devs, tag):
             return
 
 
+class _Null:
+    """A tape that always answers the first choice (used to rebuild a document without drawing)."""
+
+    def draw(self, n, label=""):
+        return 0
+
+    def coin(self, *a, **k):
+        return False
+
+    def pick(self, seq, label=""):
+        return seq[0]
+
+    def rint(self, lo, hi, label=""):
+        return lo
+
+
+def core_null():
+    return _Null()
+
+
 def run_document(t, ctx, prog, csres, devs, scen, label):
     try:
         expected = gfx.Machine({}, {}).run(prog)
@@ -448,6 +470,24 @@ def run_document(t, ctx, prog, csres, devs, scen, label):
             devs.append(Dev("C16:raise:%s@%s" % (type(e).__name__, where(e)), "%r; %s" % (e, cfg)))
             continue
         compare(expected, shapes, cfg, devs, "split" if split else "program")
+        if not split and shapes and t.coin(25, 100, "with.layout"):
+            # the same page with a line of text on it, handed to the layout analysis: the shapes are not text - they come
+            # out as they went in, all of them, in their order
+            from pdfminer.layout import LAParams
+
+            ctx.probe("shapes through the layout analysis")
+            pdf2 = build_document(core_null(), pieces + [b" q BT /F1 10 Tf 1 0 0 1 300 400 Tm (text) Tj ET Q"], csres, None, with_font=True)
+            try:
+                plain = interpret(pdf2, None)
+                laid = interpret(pdf2, None, LAParams())
+            except Exception as e:
+                devs.append(Dev("C16:layout:raise:%s@%s" % (type(e).__name__, where(e)), "%r; %s" % (e, cfg)))
+            else:
+                key = lambda x: (type(x).__name__, tuple(x.pts), tuple(x.bbox), x.linewidth, x.stroke, x.fill, x.evenodd, repr(x.stroking_color), repr(x.non_stroking_color))  # noqa: E731
+                a, b = [key(x) for x in plain], [key(x) for x in laid]
+                if a != b:
+                    k = next((i for i, (x, y) in enumerate(zip(a, b)) if x != y), min(len(a), len(b)))
+                    devs.append(Dev("C16:layout:shapes-differ", "%d shapes without layout analysis, %d with it; first difference at #%d: %r / %r; %s" % (len(a), len(b), k, a[k] if k < len(a) else None, b[k] if k < len(b) else None, cfg)))
         scen.append((pieces, pdesc))
     return nshape
 
